@@ -48,6 +48,9 @@ STATEMENT_STATUS = {
     "C01_bufsize_indep / C01_offset_indep / C01_offset_indep_ws": "proved, FULL (every byte string, conformant or damaged, "
         "odd hex included): the objects read do not depend on the read-buffer size, nor on a token-free prefix (white "
         "space of every SPC byte, complete comments) in front; checked on the implementation for damaged spellings too",
+    "C01_stream_object_spelled_partial": "proved: the same for the spelled family (ObjSpelling head + spelled dictionary, every "
+        "spelling freedom); the token hypothesis is discharged by lex_tree (StreamSeam.head_tokens); partial: only the "
+        "Complete-scanner-state hypothesis after the dictionary remains (checked: always main or wclose on 1200 objects/run)",
     "C01_stream_object_partial": "proved at every buffer size: objid gen obj <<dict with direct correct /Length>> + white space "
         "+ stream + LF|CRLF + ANY payload + marker-free tail + endstream endobj -> getobjS yields the stream with exactly that "
         "dictionary and payload; composes C14_compositional, feed_ser/nextobjectP_prefix and C03's Filters.streamRead. "
